@@ -42,6 +42,8 @@ def gen_semspec(rng, g):
             methods[n] = ('raiseif', rng.choice(STRS), rng.choice(RAISE))
         elif r < 0.72:
             methods[n] = ('const', rng.choice(['K', 7, None]))
+        elif r < 0.8:
+            methods[n] = 'data'
     return (default, methods)
 
 
@@ -140,6 +142,14 @@ def shard(col, shard_i, ngrammars, ninputs):
         for t in texts:
             cases.append(R.Case(g, t, None, E.Settings(), spec))
             cases.append(R.Case(g, t, None, E.Settings(memoization=False), spec))
+    # a @name rule with an action that changes the value: the reserved-word check is on the matched text, BEFORE the action runs
+    from props.c11 import gen_kw_grammar, gen_texts
+    for gi in range(max(2, ngrammars // 3)):
+        g, kws, _shape = gen_kw_grammar(rng)
+        col.count('family.keywords-with-actions')
+        spec = ('none', {'ident': rng.choice(['tag', ('const', 'K'), 'wrap', 'identity'])})
+        for t in gen_texts(rng, 6, kws):
+            cases.append(R.Case(g, t, None, E.Settings(), spec, tag='kw'))
     # skip-to over a rule reference: the scan and the final parse must both run the rule's action
     for gi in range(max(2, ngrammars // 3)):
         tgt_tok = rng.choice(['a', 'b', 'x'])
@@ -276,6 +286,63 @@ def shard_history(col, shard_i, n):
                 break
 
 
+def shard_params(col, shard_i):
+    """the rule's declared parameters reach the action exactly as declared: every value type incl. falsy ones, positional and keyword,
+    for actions written with *params and with named parameters, through model.parse and through the generated parser"""
+    import tatsu
+    values = ['A', 0, 7, 0.0, 2.5, True, False, '', 'x y', None]
+
+    def lit(v):
+        return repr(v) if not isinstance(v, str) or not v.isidentifier() else v
+
+    class Star:
+        def start(self, ast, *params, **kw):
+            return ('$tag', 'start', [ast, list(params), sorted((k, v) for k, v in kw.items() if k != 'parseinfo')])
+
+    class Named1:
+        def start(self, ast, p1=None, **kw):
+            return ('$tag', 'start', [ast, [p1], sorted((k, v) for k, v in kw.items() if k != 'parseinfo')])
+
+    class Named2:
+        def start(self, ast, p1=None, p2=None, **kw):
+            return ('$tag', 'start', [ast, [p1, p2], sorted((k, v) for k, v in kw.items() if k != 'parseinfo')])
+
+    def typed(x):
+        return [type(x).__name__, x] if not isinstance(x, (list, tuple, dict)) else [typed(y) for y in x]
+    cases = [([v], {}) for v in values] + [([a, b], {}) for a in values[:6] for b in values[1:7]] + [([], {'k': v}) for v in values[:8]] + \
+            [([a], {'k': b}) for a in values[:4] for b in values[1:6]]
+    for params, kwp in cases:
+        if any(p is None for p in params) or (params and params[0] == ''):
+            continue       # not expressible in the grammar syntax
+        header = ', '.join([lit(p) for p in params] + [f'{k}={lit(v)}' for k, v in kwp.items()])
+        g = f"start({header}) = 'x' ;"
+        try:
+            m = tatsu.compile(g)
+            ns: dict = {}
+            exec(tatsu.to_python_sourcecode(g, name='P'), ns)
+            gp = ns['PParser']
+        except Exception as e:  # noqa
+            col.count('params.not-compilable:' + type(e).__name__)
+            continue
+        want_params = list(m.rules[0].params)
+        want_kw = sorted(m.rules[0].kwparams.items())
+        for sem in (Star, Named1 if len(params) <= 1 else Named2):
+            for back, run in (('model', lambda: m.parse('x', semantics=sem())), ('generated', lambda: gp().parse('x', semantics=sem()))):
+                col.case(['params', g, sem.__name__, back], nontrivial=True)
+                col.count('params.compared')
+                try:
+                    r = run()
+                    got = (list(r[2][1][:len(want_params)]), r[2][2], r[2][0])
+                except Exception as e:  # noqa
+                    got = ('raises', type(e).__name__, str(e)[:80])
+                want = (want_params, want_kw, 'x')
+                if typed(got) != typed(want):
+                    col.violation(f'oracle:declared-params:{sem.__name__}:{back}:' + '+'.join(type(p).__name__ + ('-falsy' if not p else '') for p in params + list(kwp.values())),
+                                  f'the action of {g!r} did not receive the declared parameters: got {got!r}, declared {want!r}',
+                                  {'oracle': 'declared parameters reach the action', 'grammar': g, 'signature_style': sem.__name__, 'backend': back,
+                                   'got': repr(got), 'declared': repr(want)})
+
+
 def main():
     chk = Check(PID)
     chk.rule = ('random grammars extended with leaf rules (some @nomemo) whose values are plain strings x inputs x semantics objects drawn from '
@@ -292,9 +359,11 @@ def main():
         if chk.quick:
             vlib.run_sharded(chk, shard, 14, extra=(16, 8))
             vlib.run_sharded(chk, shard_history, 14, extra=(6,))
+            vlib.run_sharded(chk, shard_params, 1, procs=1)
         else:
             vlib.run_sharded(chk, shard, 28, extra=(40, 10))
             vlib.run_sharded(chk, shard_history, 28, extra=(40,))
+            vlib.run_sharded(chk, shard_params, 1, procs=1)
         chk.obligation('E1 x semantics: results and action-call sequences, implementation vs model', 'correspondence',
                        not any(v['signature'].startswith('E1sem') for v in chk.violations))
         chk.obligation('identity == no semantics; generated parser agrees on failures/exceptions (implementation only)', 'oracle',
